@@ -43,11 +43,49 @@ def main():
                  'quant-short': 6, 'quant-ident': 8, 'cast-cond': 5}
         tpl = templates.thin(tpl, quota, rnd)
     ck.extra['templates'] = len(tpl)
-    ck.run_units([(name, templates.render(rule)) for _, name, rule in tpl], run_unit)
+    ck.run_units([(name, templates.render(rule)) for _, name, rule in tpl] + [('@wide-matrix', None)], run_unit)
     ck.finish('original vs optimised trees on real solver MIR, one symbolic document; z3 decides verdict inequality')
 
 
+def wide_matrix_unit(ck):
+    """*concrete* (labelled): an or-group over 300 distinct fields (far beyond the symbolic bound; the matrix pass keys its
+    columns by one character each): the unoptimised rule against every switch combination that includes matrix, on
+    documents that satisfy one entry / half an entry / an entry's fields crossed with another's"""
+    br = ck.bridge()
+    N = 300
+    entries = ''.join("    - f%03d: hit\n      g%d: hit\n" % (i, i % 2) for i in range(N))
+    yaml = 'detection:\n  A:\n%s  condition: A\ntrue_positives: []\ntrue_negatives: []\n' % entries
+
+    def doc(pairs):
+        return {'$obj': [[list(k.encode()), {'$str': list(v.encode())}] for k, v in pairs]}
+    docs = []
+    for i in (0, 1, 10, 44, 45, 254, 255, 256, 257, 298, 299):
+        docs.append(doc([('f%03d' % i, 'hit'), ('g%d' % (i % 2), 'hit')]))
+        docs.append(doc([('f%03d' % i, 'hit'), ('g%d' % ((i + 1) % 2), 'hit')]))
+        docs.append(doc([('f%03d' % i, 'hit'), ('g%d' % (i % 2), 'nope')]))
+        docs.append(doc([('f%03d' % i, 'hit')]))
+        docs.append(doc([('f%03d' % i, 'nope'), ('g0', 'hit'), ('g1', 'hit')]))
+        docs.append(doc([('f%03d' % ((i + 256) % N), 'hit'), ('g%d' % (i % 2), 'hit'), ('f%03d' % i, 'nope')]))
+    for opts in ([False, False, False, True], [True, False, False, True], [True, True, False, True], [True, True, True, True]):
+        for dj in docs:
+            n0 = br.call(cmd='eval', yaml=yaml, opts=None, doc=dj, mode='flat')
+            n1 = br.call(cmd='eval', yaml=yaml, opts=opts, doc=dj, mode='flat')
+            ck.obligations += 1
+            if 'panic' in n1 or n0.get('verdict') != n1.get('verdict'):
+                label = 'wide-matrix opts=%s' % ''.join('csrm'[i] if opts[i] else '-' for i in range(4))
+                path = ck.write_replay(safe(label), {'rule': yaml, 'opts': opts, 'doc': dj, 'native_original': n0, 'native_optimised': n1,
+                                                     'request': {'cmd': 'eval', 'yaml': yaml, 'opts': opts, 'doc': dj, 'mode': 'flat'}})
+                ck.violations.append((path, '%s: original=%s optimised=%s on %s' % (label, n0.get('verdict', n0), n1.get('verdict', n1), json.dumps(dj))))
+                ck.replays_ok += 1
+                return
+            ck.discharged += 1
+    ck.extra['wide_matrix_documents'] = len(docs)
+
+
 def run_unit(ck, unit):
+    if unit[0] == '@wide-matrix':
+        wide_matrix_unit(ck)
+        return
     name, yaml = unit
     quick = ck.tier == 'quick'
     ck.handles_probes = True
